@@ -51,6 +51,11 @@ type Case struct {
 	SWin   Win     `json:"swin"`   // how the server receives
 	CMax   uint32  `json:"cmax,omitempty"`
 	SMax   uint32  `json:"smax,omitempty"`
+	// CTable / STable: SETTINGS_HEADER_TABLE_SIZE in the side's initial SETTINGS (0: not
+	// sent). A peer that has processed it (it does so before its script when the side's
+	// initial window is the default, see earlyAck) may grow its encoder's table up to it.
+	CTable uint32 `json:"ctable,omitempty"`
+	STable uint32 `json:"stable,omitempty"`
 	Procs  int     `json:"procs"` // stream-processor configuration, see h2kit.Factories
 }
 
@@ -188,8 +193,16 @@ func genBody(t *rapid.T, stream uint32, b *budget, big bool) lane {
 	return l
 }
 
-func genConnLane(t *rapid.T, client bool, maxStream uint32, canDisablePush bool) lane {
+func genConnLane(t *rapid.T, client bool, maxStream uint32, canDisablePush bool, maxTable uint32) lane {
 	var l lane
+	tables := []uint32{0, 64, 200, 4096}
+	if maxTable > 4096 {
+		// the peer allows a larger dynamic table and this side has processed that
+		tables = []uint32{0, 200, 4096, 4097, maxTable / 2, maxTable, maxTable}
+		if rapid.Bool().Draw(t, "grow_table_first") {
+			l = append(l, Frame{T: "T", Pad: -1, Table: rapid.SampledFrom([]uint32{4097, maxTable / 2, maxTable}).Draw(t, "table0")})
+		}
+	}
 	n := rapid.IntRange(0, 3).Draw(t, "nconn")
 	goaway := false
 	for i := 0; i < n; i++ {
@@ -224,7 +237,7 @@ func genConnLane(t *rapid.T, client bool, maxStream uint32, canDisablePush bool)
 				l = append(l, Frame{T: "A", Pad: -1, Last: maxStream, Code: rapid.SampledFrom([]uint32{0, 0, 1, 2, 11}).Draw(t, "gcode"), Debug: rapid.SampledFrom([]int{0, 0, 1, 20, 300}).Draw(t, "gdebug")})
 			}
 		case "T":
-			l = append(l, Frame{T: "T", Pad: -1, Table: rapid.SampledFrom([]uint32{0, 64, 200, 4096}).Draw(t, "table")})
+			l = append(l, Frame{T: "T", Pad: -1, Table: rapid.SampledFrom(tables).Draw(t, "table")})
 		}
 	}
 	return l
@@ -296,6 +309,16 @@ func genCase(t *rapid.T) Case {
 		Procs:  rapid.IntRange(0, 4).Draw(t, "procs"),
 		CMax:   rapid.SampledFrom([]uint32{0, 0, 16384, 32768, 1 << 20}).Draw(t, "cmax"),
 		SMax:   rapid.SampledFrom([]uint32{0, 0, 16384, 32768, 1 << 20}).Draw(t, "smax"),
+		CTable: rapid.SampledFrom([]uint32{0, 0, 4096, 8192, 65536}).Draw(t, "ctable"),
+		STable: rapid.SampledFrom([]uint32{0, 0, 4096, 8192, 65536}).Draw(t, "stable"),
+	}
+	// a larger table is only usable by a peer that has processed the SETTINGS, which this
+	// harness lets it do early only next to a default initial window
+	if c.CTable > 4096 && rapid.Bool().Draw(t, "cwin_default") {
+		c.CWin.Init = 65535
+	}
+	if c.STable > 4096 && rapid.Bool().Draw(t, "swin_default") {
+		c.SWin.Init = 65535
 	}
 	k := rapid.IntRange(1, kit.N(4, 8)).Draw(t, "streams")
 	big := rapid.IntRange(0, 7).Draw(t, "big") == 0
@@ -356,12 +379,24 @@ func genCase(t *rapid.T) Case {
 		}
 	}
 	maxStream := uint32(2*k + 1)
-	cl = append(cl, genConnLane(t, true, maxStream, !anyPush))
-	sl = append(sl, genConnLane(t, false, maxStream, false))
-	c.Client = tame(merge(t, cl))
-	c.Server = tame(merge(t, sl))
+	var cGrow, sGrow uint32 // how far the client's / the server's encoder may grow its table
+	if earlyAck(c.SWin) {
+		cGrow = c.STable
+	}
+	if earlyAck(c.CWin) {
+		sGrow = c.CTable
+	}
+	cl = append(cl, genConnLane(t, true, maxStream, !anyPush, cGrow))
+	sl = append(sl, genConnLane(t, false, maxStream, false, sGrow))
+	c.Client = tame(merge(t, cl), c.CTable != 0)
+	c.Server = tame(merge(t, sl), c.STable != 0)
 	return c
 }
+
+// earlyAck: the peer of a receiver with this window behaviour processes and
+// acknowledges the receiver's initial SETTINGS before its script (nothing in
+// them restricts what it sends); otherwise only afterwards.
+func earlyAck(w Win) bool { return w.Init == 65535 }
 
 // tame keeps scripts inside what the pinned x/net HPACK decoder (used by the
 // relay and by the harness endpoints alike) accepts: it rejects a second
@@ -369,9 +404,9 @@ func genCase(t *rapid.T) Case {
 // section 4.2 allows two. So: at most one encoder resize between two header
 // blocks, and at most one HEADER_TABLE_SIZE setting per direction (the relay's
 // encoder toward the sender of that setting then signals one update).
-func tame(frames []Frame) []Frame {
+func tame(frames []Frame, tableAnnounced bool) []Frame {
 	var out []Frame
-	resized, hts := false, false
+	resized, hts := false, tableAnnounced
 	for _, f := range frames {
 		switch f.T {
 		case "T":
